@@ -82,6 +82,28 @@ static void iterate(DynamicBitset& b, const Ref& r) {
    catch (...) { thrown = 1; }
    size_t cnt = 0; for (size_t i = 0; i < r.n; ++i) cnt += rbit(r, i);
    vs_assert(thrown == 0 && n1 == cnt && n2 == cnt, "const iteration visits count() positions in both directions");
+   // post-increment: the returned iterator is the old position ( *it++ ), forward and reverse, const and non-const
+   thrown = 0; expect = 0; visited = 0;
+   try {
+      for (auto it = b.begin(); it != b.end() && visited <= r.n; ++visited) {
+         while (expect < r.n && !rbit(r, expect)) ++expect;
+         size_t got = *it++;
+         vs_assert(expect < r.n && got == expect, "post-increment returns the position the iterator stood at (forward)");
+         ++expect;
+      }
+      while (expect < r.n && !rbit(r, expect)) ++expect;
+      vs_assert(expect >= r.n, "forward iteration with post-increment visits every set position");
+      down = r.n; visited = 0;
+      for (auto it = cb.crbegin(); it != cb.crend() && visited <= r.n; ++visited) {
+         while (down > 0 && !rbit(r, down - 1)) --down;
+         size_t got = *it++;
+         vs_assert(down > 0 && got == down - 1, "post-increment returns the position the iterator stood at (reverse)");
+         if (down > 0) --down;
+      }
+      while (down > 0 && !rbit(r, down - 1)) --down;
+      vs_assert(down == 0, "reverse iteration with post-increment visits every set position");
+   } catch (...) { thrown = 1; }
+   vs_assert(thrown == 0, "iteration with post-increment does not throw");
 }
 static size_t sym_pos(size_t n) {
    // position / distance: 0..n+2, or SIZE_MAX-ish values
